@@ -66,6 +66,9 @@ def aChk (x : ACtx) (e : Env) (c : Chk) (p : APt) : Br :=
   | .bessel => ⟨some (if x.m.derivs && !x.cst 0 then p.setErr else p), some p.setErr⟩
   | .coupling => ⟨some (if x.m.derivs && anyBelow x.n (fun i => !x.cst i) then p.setErr else p), some p.setErr⟩
 
+def APt.setLb (p : APt) (v : Nat) (b : Bool) : APt :=
+  { p with lb := fun y => if y = v then some b else p.lb y }
+
 def ofBool (b : Bool) (p : APt) : Br := if b then ⟨some p, none⟩ else ⟨none, some p⟩
 
 def aCond (x : ACtx) (e : Env) : Cond → APt → Br
@@ -91,13 +94,11 @@ def aCond (x : ACtx) (e : Env) : Cond → APt → Br
     | none => ⟨r1.tt, none⟩
     | some pf => let r2 := aCond x e c2 pf; ⟨joinO r1.tt r2.tt, r2.ff⟩
   | .chk c, p => aChk x e c p
+  | .gsl k, p => ⟨some (p.setLb k true), some (p.setLb k false)⟩
 
 structure ARes where
   ok : Bool
   cur : Option APt
-
-def APt.setLb (p : APt) (v : Nat) (b : Bool) : APt :=
-  { p with lb := fun y => if y = v then some b else p.lb y }
 
 /-- every requested first (and second) partial has certainly been assigned -/
 def covered (x : ACtx) (p : APt) : Bool :=
@@ -141,6 +142,7 @@ def aExec (x : ACtx) : Stmt → Env → APt → ARes
   | .seq s1 s2, e, p => thenRes (aExec x s1 e p) (fun p' => aExec x s2 e p')
   | .for_ v start body, e, p => aLoop (aExec x body) e v x.n x.n start p
   | .retCheck, _, p => ⟨p.errDef || !x.m.derivs || covered x p, none⟩
+  | .retCheckNaN, _, _ => ⟨true, none⟩
   | .ret0, _, p => ⟨p.errDef, none⟩
   | .retRaw, _, _ => ⟨false, none⟩
 
